@@ -6,6 +6,7 @@ CONSTANTS NP = 4
   ProbeHws <- PHws
   InitSets <- Init4w
   MaxEarly = 3
+  LisModes <- LisAll
   D = 16
 INIT Init
 NEXT Next
